@@ -177,7 +177,7 @@ func genStdSubset(repo string) (*hlib.StdBuild, error) {
 	return sb, nil
 }
 
-func buildWuffsDriver(repo string) (*wuffsBuild, error) {
+func buildWuffsDriver(repo string, opt string) (*wuffsBuild, error) {
 	sb, err := genStdSubset(repo)
 	if err != nil {
 		return nil, err
@@ -189,7 +189,7 @@ func buildWuffsDriver(repo string) (*wuffsBuild, error) {
 		return nil, err
 	}
 	exe := filepath.Join(dir, "c17drv")
-	if err := hlib.CC("gcc", "-O1", "-w", "-DSNAPSHOT=\""+sb.Snapshot+"\"", "-o", exe, csrc); err != nil {
+	if err := hlib.CC("gcc", opt, "-w", "-DSNAPSHOT=\""+sb.Snapshot+"\"", "-o", exe, csrc); err != nil {
 		sb.Cleanup()
 		return nil, err
 	}
